@@ -30,6 +30,8 @@ FIBRE_SPACE = {
 def fibre_json(fc):
     p = {'length': fc['length'], 'length_units': 'km', 'loss_coef': fc['loss'], 'con_in': fc['con_in'], 'con_out': 0.3,
          'att_in': 0.0}
+    if fc['slope'] is not None:
+        p['dispersion_slope'] = fc['slope']      # read from the element parameters (the library entry ignores it)
     if fc['loss_table']:
         p['loss_coef'] = {'value': [fc['loss'] + 0.02, fc['loss'], fc['loss'] + 0.01],
                           'frequency': [186e12, 193.4e12, 198e12]}
